@@ -61,6 +61,12 @@ func (k Keeper) VerifyProposal(ctx context.Context, req types.IVoteMsg, verifyFn
 		pubkeys = append(pubkeys, voter.VoteKey)
 	}
 
+	// every marked position must denote a current voter whose key takes part in the verification,
+	// marks beyond the voter list can't stand in for signatures
+	if len(pubkeys) != bmpLen+1 {
+		return 0, errorsmod.Wrap(sdkerrors.ErrInvalidRequest, "invalid voters bitmap")
+	}
+
 	sdkctx := sdktypes.UnwrapSDKContext(ctx)
 	sigdoc := types.VoteSignDoc(req.MethodName(), sdkctx.ChainID(), relayer.Proposer, sequence, relayer.Epoch, req.VoteSigDoc())
 	if !goatcrypto.AggregateVerify(pubkeys, sigdoc, req.GetVote().GetSignature()) {
